@@ -258,3 +258,51 @@ def con2(tier):
                     tgts = [(dt[0], False, 'a'), (dt[1], True, anchors[1])]
                     yield _conn_spec(sk, srcs, tgts)
                     yield _conn_spec(sk, tgts, srcs, excl=[('S2', 'T3')])
+
+
+def dv2(tier):
+    """DV-2: skeletons x 1-2 design-variable nodes (discrete n in {1,2,3}; continuous (0,1), (-1,3)) under permanent /
+    conditional anchors, with and without LINKED."""
+    sks = ['none', 'one', 'nested'] if tier == 'quick' else ['none', 'one', 'indep', 'nested', 'mutex']
+    kinds = [dict(options=1), dict(options=2), dict(options=3), dict(bounds=[0.0, 1.0]), dict(bounds=[-1.0, 3.0])]
+    for sk in sks:
+        anchors = ANCHORS[sk]
+        for k1 in kinds:
+            for a1 in anchors:
+                spec = skel(sk)
+                spec['dv'] = {'D1': dict(anchor=a1, **k1)}
+                yield spec
+                for k2 in kinds:
+                    for a2 in anchors:
+                        spec = skel(sk)
+                        spec['dv'] = {'D1': dict(anchor=a1, **k1), 'D2': dict(anchor=a2, **k2)}
+                        yield spec
+                        if ('options' in k1) == ('options' in k2) and k1.get('options') == k2.get('options'):
+                            spec = skel(sk)
+                            spec['dv'] = {'D1': dict(anchor=a1, **k1), 'D2': dict(anchor=a2, **k2)}
+                            spec['cc'] = [['LINKED', ['D1', 'D2']]]
+                            yield spec
+
+
+def met1(tier):
+    """MET-1: one choice (2 options) + node z derived by all options; 1-2 metric nodes x dir x ref x type x anchor."""
+    def base():
+        spec = skel('one')
+        spec['nodes'] = spec['nodes'] + ['z']
+        spec['edges'] = [['o1', 'z'], ['o2', 'z']]
+        return spec
+    cfgs = [dict(anchor=a, dir=d, ref=r, type=t) for a in ('a', 'o1', 'z') for d in (None, -1, 1) for r in (None, 0.5)
+            for t in (None, 'NONE', 'OBJECTIVE', 'CONSTRAINT')]
+    for c in cfgs:
+        spec = base()
+        spec['met'] = {'M1': dict(c)}
+        yield spec
+    second = cfgs if tier != 'quick' else [dict(anchor='a', dir=-1, ref=None, type=None), dict(anchor='o2', dir=1, ref=0.5, type=None),
+                                          dict(anchor='a', dir=1, ref=0.5, type='OBJECTIVE'), dict(anchor='z', dir=-1, ref=0.5, type='CONSTRAINT'),
+                                          dict(anchor='o1', dir=None, ref=None, type=None), dict(anchor='a', dir=1, ref=0.5, type='NONE')]
+    for c1 in cfgs:
+        for c2 in second:
+            spec = base()
+            # names chosen so that the sorted order differs from the creation order
+            spec['met'] = {'Mb': dict(c1), 'Ma': dict(c2)}
+            yield spec
